@@ -151,12 +151,43 @@ def gen():
     rlb = F.fn_body(t, "read_lexicon", rel)
     out.append("(* read_lexicon clears the `resolved` flag (rows read after resolve() may carry unresolved split units) *)\n")
     out.append("Definition read_lexicon_clears_resolved : bool := %s.\n" % ("true" if re.search(r"self\.resolved\s*=\s*false\s*;", rlb) else "false"))
-    # both data sources of read_conn / read_lexicon (a path, bytes in memory) are one call each whose value reaches the same
-    # continuation: no arm returns, propagates or does anything else on its own
-    for fn_name, body in (("read_conn", rcb), ("read_lexicon", rlb)):
-        if not re.search(r"match\s+data\.convert\(\)\s*\{\s*DataSource::File\((\w+)\)\s*=>\s*self\.(\w+)\.read_file\(\1\)\s*,\s*"
-                         r"DataSource::Data\((\w+)\)\s*=>\s*self\.\2\.(?:read|read_bytes)\(\3\)\s*,?\s*\}", body):
-            build_bad.append("DictBuilder::%s: the two data sources (file, memory) are no longer one call each that reaches the same continuation" % fn_name)
+    # the two routes of read_conn, each on its own: does the arm return / propagate by itself (before the common continuation,
+    # which hands the dimensions to the lexicon also after a failure)?
+    def arms(body):
+        m = re.search(r"match\s+data\.convert\(\)\s*\{", body)
+        if not m:
+            return None
+        e = F._close(body.replace("{", "(").replace("}", ")"), m.end() - 1)
+        inner = body[m.end():e - 1] if e > 0 else ""
+        mf = re.search(r"DataSource::File\(\w+\)\s*=>", inner)
+        md = re.search(r"DataSource::Data\(\w+\)\s*=>", inner)
+        if not mf or not md:
+            return None
+        if mf.start() < md.start():
+            return inner[mf.end():md.start()], inner[md.end():]
+        return inner[mf.end():], inner[md.end():mf.start()]
+    early = lambda arm: bool(re.search(r"\breturn\b|\?", arm))
+    a = arms(rcb)
+    if a is None:
+        raise F.FactError("read_conn no longer dispatches on data.convert() with an arm for a file and one for bytes")
+    out.append("(* read_conn: the arm for a file path / for bytes in memory returns or propagates on its own (before the dimensions are handed on) *)\n")
+    out.append("Definition conn_file_route_returns_early : bool := %s.\n" % ("true" if early(a[0]) else "false"))
+    out.append("Definition conn_bytes_route_returns_early : bool := %s.\n" % ("true" if early(a[1]) else "false"))
+    # both routes end in the same parser: ConnBuffer::read_file -> self.read(..), LexiconReader::read_file -> self.read_bytes(..),
+    # the DictBuilder arms call read_file / read (read_bytes) of the same reader and nothing else
+    def one_call(arm, reader, fn):
+        return re.fullmatch(r"\s*(?:\{\s*)?(?:let\s+(\w+)\s*=\s*)?self\.%s\.%s\(\w+\)\s*;?\s*(?:if\s+let\s+Err\(\w+\)\s*=\s*\1\s*\{[^{}]*\}\s*\1\s*)?(?:\}\s*)?,?\s*" % (reader, fn), arm) is not None
+    al = arms(rlb)
+    crel, lrel = BUILD + "conn.rs", BUILD + "lexicon.rs"
+    crf = F.fn_body(no_tests(F.strip_comments(F.src(crel))), "read_file", crel)
+    lrf = F.fn_body(no_tests(F.strip_comments(F.src(lrel))), "read_file", lrel)
+    same = (al is not None
+            and one_call(a[0], "conn", "read_file") and one_call(a[1], "conn", "read")
+            and one_call(al[0], "lexicon", "read_file") and one_call(al[1], "lexicon", "read_bytes")
+            and len(re.findall(r"\bself\.read\(", crf)) == 1 and not re.search(r"\bself\.(?!read\(|ctx\b)\w+", crf)
+            and len(re.findall(r"\bself\.read_bytes\(", lrf)) == 1 and not re.search(r"\bself\.(?!read_bytes\(|ctx\b)\w+", lrf))
+    out.append("(* both routes of read_conn / read_lexicon call one reader function each, and the file functions do nothing to the reader but call the parser of the bytes route *)\n")
+    out.append("Definition read_routes_reach_same_parser : bool := %s.\n" % ("true" if same else "false"))
     out.append("Definition build_unrecognised : list string := [ %s ].\n" % "; ".join('"%s"' % x for x in build_bad))
     for name in ("MAX_ARRAY_LEN", "MAX_DIC_STRING_LEN", "MAX_POS_IDS"):
         env = {"MAX_POS_IDS": F.find_const(rel, "MAX_POS_IDS")}
